@@ -66,9 +66,9 @@ Proof.
   - exact (trans_set_history_hist_sec c W (mh_cplok c HS) (mh_cplanti c HS) (mh_tganti c HS) (mh_tgnoinit c HS) (mh_root c HS) (mh_par c HS) (mh_leaf c HS)
              cfg sel h hist HL Hbound Hprop Hsrc Hok HH HD HR).
   - intros p ti.
-    pose proof (spec_hc_h c W (mh_cplok c HS) (mh_cplanti c HS) (mh_tganti c HS) (mh_tgnoinit c HS) (mh_root c HS) (mh_par c HS) (mh_leaf c HS)
-                  cfg sel h hist HL Hbound Hprop Hsrc Hok HH HD HR Hdom) as Hhc.
-    rewrite <- (hc_of_spec c sel h p ti), <- Hhc. fold e. apply in_rev.
+    rewrite <- (hc_of_spec c sel h p ti).
+    exact (spec_hc_in c W (mh_cplok c HS) (mh_cplanti c HS) (mh_tganti c HS) (mh_tgnoinit c HS) (mh_root c HS) (mh_par c HS) (mh_leaf c HS)
+             cfg sel h hist HL Hbound Hprop Hsrc Hok HH HD HR Hdom p ti).
   - intros i H Hi HT Hh Hp.
     exact (default_no_hist_target c W (mh_cplok c HS) (mh_cplanti c HS) (mh_tganti c HS) (mh_tgnoinit c HS) (mh_root c HS) (mh_par c HS) (mh_leaf c HS)
              cfg sel h hist HL Hbound Hprop Hsrc Hok HH HD HR Hdom i H Hi HT Hh Hp).
@@ -78,7 +78,7 @@ Qed.
 Theorem microstep_conforms_hist_main sel l s x :
   micro_static_hb c = true -> legal_configb c (l_cfg l) = true ->
   HistOK c (l_hist l) -> HistDown c (l_hist l) -> hv_rel c (l_hist l) (s_hv s) -> corr c l s ->
-  NoDup sel -> (forall ti, In ti sel -> In (ft_source (tr c ti)) (l_cfg l)) ->
+  (forall ti, In ti sel -> In (ft_source (tr c ti)) (l_cfg l)) ->
   pairwise_ok lg_fixed c sel ->
   (forall ti, In ti sel -> ft_history (tr c ti) || ft_initial (tr c ti) = false) ->
   let r := microstep lg_fixed ex_fixed c l (emit TMsB x) (sel_targets c sel) (sel_exitset c (l_cfg l) sel) sel false in
@@ -86,8 +86,8 @@ Theorem microstep_conforms_hist_main sel l s x :
   corr c (fst r) (fst q) /\ snd q = emit (spec_cfg_tok c (fst q)) (snd r) /\
   HistOK c (l_hist (fst r)) /\ HistDown c (l_hist (fst r)) /\ hv_rel c (l_hist (fst r)) (s_hv (fst q)).
 Proof.
-  intros Hst Hleg HH HD HR Hcorr Hnd Hsrc Hok Hnp.
-  exact (microstep_conforms_hist_lemma late t0 (micro_static_h_sound late t0 Hst) sel l s x Hleg HH HD HR Hcorr Hnd Hsrc Hok Hnp).
+  intros Hst Hleg HH HD HR Hcorr Hsrc Hok Hnp.
+  exact (microstep_conforms_hist_lemma late t0 (micro_static_h_sound late t0 Hst) sel l s x Hleg HH HD HR Hcorr Hsrc Hok Hnp).
 Qed.
 
 Theorem microstep_selected_conforms_hist_main l s ev x0 x :
